@@ -382,6 +382,9 @@ def gen(rng, tier):
     for i in range(160 * mult):
         yield {"op": "line-ctor", "kind": ("zero", "tiny", "threshold", "ordinary", "from-points-same",
                                            "from-points", "from-points-tiny")[i % 7], "seed": sub()}
+    for al in ([1e-9, 0.0, 0.0], [0.0, -1e-8, 0.0], [5e-9, 5e-9, -5e-9], [0.0, 0.0, 1e-300]):
+        yield {"op": "line-ctor", "kind": "explicit", "point": [0.0, 0.0, 0.0], "along": al, "seed": 0}
+    yield {"op": "line-ctor", "kind": "explicit", "point": [0.0, 0.0, 0.0], "p2": [0.0, 1e-9, 0.0], "seed": 0}
     # --- malformed shapes -----------------------------------------------------------------------------------
     for i in range(130 * mult):
         yield {"op": "shapes", "fn": ("project", "isect3", "isect2")[i % 3], "seed": sub()}
@@ -717,7 +720,13 @@ def make_ctor(spec):
     tiny_vals = [0.0, 5e-9, -5e-9, ATOL, -ATOL, 9.9e-9, 1e-12, -1e-300, 5e-324]
     above = [math.nextafter(ATOL, 1.0), -math.nextafter(ATOL, 1.0), 2e-8, -1e-7, 1.0000001e-8]
     from_points = kind.startswith("from-points")
-    if kind == "zero":
+    if kind == "explicit":           # corpus entries: {"point": [...], "along": [...]} or {"point": [...], "p2": [...]}
+        pt = [float(x) for x in spec["point"]]
+        if "p2" in spec:
+            from_points, al, p2 = True, None, [float(x) for x in spec["p2"]]
+        else:
+            al = [float(x) for x in spec["along"]]
+    elif kind == "zero":
         al = [0.0, 0.0, rng.choice([0.0, -0.0])]
     elif kind == "tiny":
         al = [rng.choice(tiny_vals) for _ in range(3)]
@@ -760,6 +769,9 @@ def make_ctor(spec):
         out = []
         if zero and r != ("err", "ValueError"):
             out.append(("line/rejects-zero", "%s has a zero direction but the constructor answered %s" % (what, r)))
+        if not zero and small and r == ("err", "ValueError"):
+            out.append(("line/tiny-direction-rejected", "%s raised ValueError although the direction is not the zero vector "
+                        "(all |components| <= 1e-8)" % what))
         if r[0] == "err" and (r[1] != "ValueError" or not small):
             out.append(("line/accepts-nonzero", "%s raised %s for a direction that is not (almost) zero" % (what, r[1])))
         if r[0] == "ok" and any(x is None or math.isinf(x) for x in r[1]):
